@@ -54,6 +54,7 @@ func (fx *FuncCtx) resetPass() {
 	fx.prevHeadLine, fx.headLine = fx.headLine, map[*ssa.BasicBlock]int{}
 	fx.sliceArr = map[string]string{}
 	fx.seeded = map[string]bool{}
+	fx.wfSeen = map[string]bool{}
 	fx.lines = nil
 	fx.obls = nil
 	fx.n = 0
@@ -180,7 +181,7 @@ func (fx *FuncCtx) pass() bool {
 		for _, c := range fx.ct.Requires {
 			env := fx.clauseEnv(entry, entry, nil)
 			t := fx.evalClause(c, env)
-			fx.assume(entry, t)
+			fx.assumeTagged(entry, t, "req."+c.Label)
 			if fx.ct.Kind == "func" {
 				fx.coverProbe(entry, "requires."+c.Label, t)
 			}
@@ -338,12 +339,13 @@ func (fx *FuncCtx) enterLoop(li *loopInfo, pre *State) *State {
 	// invariant on entry
 	if spec != nil {
 		for _, c := range spec.Invariants {
-			t := fx.evalClause(c, fx.clauseEnv(pre, fx.entry, nil))
+			t := fx.evalGoal(c, fx.clauseEnv(pre, fx.entry, nil))
 			ob := fx.oblige(pre, "inv-entry", fmt.Sprintf("inv-entry:loop%d.%s", li.ordinal, c.Label), t, token.NoPos, false)
 			fx.tagClause(ob, c)
 		}
 	}
 	st := pre.clone()
+	st.Splits = nil
 	rh := fx.declare("RH", "Bool")
 	fx.emit("(assert " + imp(rh, pre.R) + ")")
 	st.R = rh
@@ -405,7 +407,7 @@ func (fx *FuncCtx) enterLoop(li *loopInfo, pre *State) *State {
 	if spec != nil {
 		for _, c := range spec.Invariants {
 			t := fx.evalClause(c, fx.clauseEnv(st, fx.entry, nil))
-			fx.assume(st, t)
+			fx.assumeTagged(st, t, "inv."+c.Label)
 			fx.coverProbe(st, fmt.Sprintf("loop%d.%s", li.ordinal, c.Label), t)
 		}
 	}
@@ -423,13 +425,21 @@ func (fx *FuncCtx) closeLoop(li *loopInfo, latch *State, cond string, from *ssa.
 	}
 	at := latch.clone()
 	at.R = cond
+	for _, c := range spec.Hints {
+		// a lemma: proved here, then available to the obligations that follow
+		t := fx.evalGoal(c, fx.clauseEnv(at, li.headSt, nil))
+		ob := fx.oblige(at, "hint", fmt.Sprintf("hint:loop%d.%s@b%d", li.ordinal, c.Label, from.Index), t, token.NoPos, false)
+		fx.tagClause(ob, c)
+		ta := fx.evalClause(c, fx.clauseEnv(at, li.headSt, nil))
+		fx.emit("(assert " + imp(at.R, ta) + ") ;@hyp:hint." + c.Label)
+	}
 	for _, c := range spec.Invariants {
-		t := fx.evalClause(c, fx.clauseEnv(at, fx.entry, nil))
+		t := fx.evalGoal(c, fx.clauseEnv(at, fx.entry, nil))
 		ob := fx.oblige(at, "inv-keep", fmt.Sprintf("inv-keep:loop%d.%s@b%d", li.ordinal, c.Label, from.Index), t, token.NoPos, false)
 		fx.tagClause(ob, c)
 	}
 	for _, c := range spec.Steps {
-		t := fx.evalClause(c, fx.clauseEnv(at, li.headSt, nil))
+		t := fx.evalGoal(c, fx.clauseEnv(at, li.headSt, nil))
 		ob := fx.oblige(at, "step", fmt.Sprintf("step:loop%d.%s@b%d", li.ordinal, c.Label, from.Index), t, token.NoPos, false)
 		fx.tagClause(ob, c)
 	}
@@ -448,14 +458,22 @@ func (fx *FuncCtx) exitLoop(li *loopInfo, st *State, cond string) {
 		return
 	}
 	spec := fx.ct.Loops[li.ordinal]
-	if spec == nil || len(spec.Steps) == 0 {
+	if spec == nil || (len(spec.Steps) == 0 && len(spec.Hints) == 0) {
 		return
 	}
 	at := st.clone()
 	at.R = cond
 	fx.exitN++
+	for _, c := range spec.Hints {
+		// the lemmas also hold (and are proved) on the edges that leave the loop mid-iteration
+		t := fx.evalGoal(c, fx.clauseEnv(at, li.headSt, nil))
+		ob := fx.oblige(at, "hint", fmt.Sprintf("hint:loop%d.%s@exit%d", li.ordinal, c.Label, fx.exitN), t, token.NoPos, false)
+		fx.tagClause(ob, c)
+		ta := fx.evalClause(c, fx.clauseEnv(at, li.headSt, nil))
+		fx.emit("(assert " + imp(at.R, ta) + ") ;@hyp:hint." + c.Label)
+	}
 	for _, c := range spec.Steps {
-		t := fx.evalClause(c, fx.clauseEnv(at, li.headSt, nil))
+		t := fx.evalGoal(c, fx.clauseEnv(at, li.headSt, nil))
 		ob := fx.oblige(at, "step", fmt.Sprintf("step:loop%d.%s@exit%d", li.ordinal, c.Label, fx.exitN), t, token.NoPos, false)
 		fx.tagClause(ob, c)
 	}
